@@ -220,8 +220,9 @@ def ctorLine : P String := do
                 | .fin x, .fin y => decide (absQ (x - y) ≤ tol) | _, _ => false))) s!"{compB} conversion_changed_dynamics"
             let v := v.failIf (pomdp && !(all3 m.A m.S sp.O (fun a s o => match get3 p.Om a s o, get3 sp.om s a o with
                 | .fin x, .fin y => decide (absQ (x - y) ≤ tol) | _, _ => false))) s!"{compO} conversion_changed_observations"
+            let Tt := mk3 m.A m.S m.S (fun a s s1 => get3 m.T s a s1)
             let v := v.failIf (!(all2 m.S m.A (fun s a =>
-                match expReward m.S m.R (mk3 m.A m.S m.S (fun a s s1 => get3 m.T s a s1)) s a, get2 p.R s a with
+                match expReward m.S m.R Tt s a, get2 p.R s a with
                 | .fin e, .fin g =>
                     -- the sparse class ignores rewards below the threshold: allow tol per successor
                     decide (absQ (e - g) ≤ (if kb == Rep.sparse then tol * (m.S + 1) else 0) + eps * (1 + absQ e))
